@@ -1298,3 +1298,23 @@ def shipped_suite():
              "main_vm": base.get("main_vm", "vm1")}
     _shipped["suite"] = suite
     return suite
+
+
+def gen_shipped_case(rng, with_suite=True, max_workers=3):
+    """a random selection over the shipped suite's own test sets, vm variants and nets"""
+    tests = ["only normal\n", "only minimal\n", "only leaves..tutorial_gui\n", "only leaves..tutorial_get\n",
+             "only leaves..tutorial_finale\n", "only normal..tutorial1,normal..tutorial2\n",
+             "only leaves..tutorial3..no_remote\n", "only nonleaves..connect\n", "only leaves\nonly tutorial1\n",
+             "only leaves..quicktest\n", "only all..tutorial_get..explicit_noop\n", "only minimal..tutorial2..files\n",
+             "only leaves..tutorial_gui..client_clicked,leaves..tutorial1\n", "only nonleaves..linux_virtuser\n",
+             "only leaves..tutorial3..remote..object..control..decorator..util\n",
+             "only normal\nno tutorial3\n"]
+    vm_choices = {"vm1": ["only CentOS\n", "only CentOS\n", "only Fedora\n", "only CentOS, Fedora\n", ""],
+                  "vm2": ["only Win10\n", "only Win10\n", "only Win7\n", "", "no Win7\n"],
+                  "vm3": ["only Ubuntu\n", "only Ubuntu\n", "only Kali\n", ""]}
+    nets = [["net1"], ["net1", "net2"], ["net3"], ["net5"], ["net2", "net5"], ["cluster1.net6", "cluster1.net7"],
+            ["net1", "cluster1.net6"], ["net4", "net3", "net1"], ["cluster2.net9", "net2"], ["net0"]]
+    ns = rng.choice(nets)[:max_workers]
+    return {"suite": shipped_suite() if with_suite else None, "tests_str": rng.choice(tests),
+            "vm_strs": {vm: rng.choice(c) for vm, c in vm_choices.items()}, "nets": list(ns),
+            "mode": rng.choice(["eager", "eager", "lazy"])}
